@@ -6,6 +6,8 @@ import (
 	"go/token"
 	"go/types"
 	"math/big"
+	"os"
+	"sort"
 	"strings"
 )
 
@@ -189,6 +191,8 @@ func (fx *fctx) evalBuiltin(st *State, name string, ce *ast.CallExpr) []*Value {
 		case v.Tm != nil && v.Tm.Sort.IsArr():
 			at := v.T.Underlying().(*types.Array)
 			return []*Value{{T: t, Tm: ts.Int(at.Len())}}
+		case v.Tm != nil && v.Tm.Sort == SInt && e.mapModelled(v.T) != nil:
+			return []*Value{{T: t, Tm: e.mapLen(st, e.mapHeapsOf(e.mapModelled(v.T)), v.Tm)}}
 		case v.Tm != nil && v.Tm.Sort == SInt:
 			// map length: unknown non-negative; nil map has length 0
 			r := &Value{T: t, Tm: ts.App("map_len", SInt, v.Tm, fx.mapEpoch(st))}
@@ -275,6 +279,9 @@ func (fx *fctx) evalBuiltin(st *State, name string, ce *ast.CallExpr) []*Value {
 			for _, a := range ce.Args[1:] {
 				fx.eval(st, a)
 			}
+			if mt := e.mapModelled(t); mt != nil {
+				return []*Value{{T: t, Tm: e.mapMake(st, e.mapHeapsOf(mt))}}
+			}
 			addr := e.allocCells(st, ts.Int(1))
 			return []*Value{{T: t, Tm: addr}}
 		}
@@ -306,8 +313,12 @@ func (fx *fctx) evalBuiltin(st *State, name string, ce *ast.CallExpr) []*Value {
 		st.assume(ts.False())
 		return nil
 	case "delete":
-		fx.eval(st, ce.Args[0])
-		fx.eval(st, ce.Args[1])
+		dm := fx.eval(st, ce.Args[0])
+		dk := fx.eval(st, ce.Args[1])
+		if mt := e.mapModelled(dm.T); mt != nil {
+			e.mapDel(st, e.mapHeapsOf(mt), dm.Tm, dk.Tm)
+			return nil
+		}
 		fx.bumpMapEpoch(st)
 		return nil
 	case "min", "max":
@@ -453,6 +464,9 @@ func (fx *fctx) callStatic(st *State, fn *types.Func, recvExpr ast.Expr, sel *ty
 			return r
 		}
 	}
+	if r, ok := fx.syncModel(st, fn, recvExpr, ce); ok {
+		return r
+	}
 	fi := e.P.FuncByObj[fn]
 	if fi == nil && fn.Pkg() == e.P.Pkg.Types {
 		// generic instance or method of instantiated type: look up by origin
@@ -523,7 +537,75 @@ func (fx *fctx) callStatic(st *State, fn *types.Func, recvExpr ast.Expr, sel *ty
 		}
 		return fx.inlineBody(st, fi.Decl.Type, fi.Decl.Body, sig, fi.Decl.Recv, recv, args, ce)
 	}
+	if con == nil && fx.inlineDepth < 3 && e.autoInlinable(fi) {
+		fx.preCallHooks(st, ce, args)
+		// safety obligations inside the helper's body have the standing they have in the zero-annotation sweep: advisory,
+		// claimed only once they are in the ledger (the helper has no contract that could carry the invariants they need)
+		fx.autoInline++
+		n0 := len(e.Obls)
+		res := fx.inlineBody(st, fi.Decl.Type, fi.Decl.Body, sig, fi.Decl.Recv, recv, args, ce)
+		fx.autoInline--
+		if fx.autoInline == 0 {
+			for _, o := range e.Obls[n0:] {
+				if !o.Canary {
+					o.Advisory = true
+				}
+			}
+		}
+		return res
+	}
 	return fx.callContract(st, fi, con, recv, args, ce)
+}
+
+// autoInlinable: an in-package function without a contract whose body is short, loop-free and calls nothing but
+// externals, builtins and contracted functions is executed in place (instead of being havocked from its write set):
+// extracting such a helper from a verified function does not break the proof of that function.
+func (e *Engine) autoInlinable(fi *FuncInfo) bool {
+	if os.Getenv("DSVC_NO_AUTOINLINE") != "" {
+		return false
+	}
+	if e.autoInl == nil {
+		e.autoInl = map[*FuncInfo]bool{}
+	}
+	if v, ok := e.autoInl[fi]; ok {
+		return v
+	}
+	ok := fi.Decl != nil && fi.Decl.Body != nil && fi.File != GenFileName && fi.File != ContractsFileName
+	n := 0
+	if ok {
+		ast.Inspect(fi.Decl.Body, func(nd ast.Node) bool {
+			switch u := nd.(type) {
+			case *ast.ForStmt, *ast.RangeStmt, *ast.GoStmt, *ast.DeferStmt, *ast.SelectStmt, *ast.FuncLit, *ast.LabeledStmt, *ast.BranchStmt:
+				ok = false
+			case ast.Stmt:
+				n++
+			case *ast.CallExpr:
+				var fn *types.Func
+				switch f := u.Fun.(type) {
+				case *ast.Ident:
+					fn, _ = e.P.Info.Uses[f].(*types.Func)
+				case *ast.SelectorExpr:
+					if sel := e.P.Info.Selections[f]; sel != nil {
+						fn, _ = sel.Obj().(*types.Func)
+					} else {
+						fn, _ = e.P.Info.Uses[f.Sel].(*types.Func)
+					}
+				}
+				if fn != nil && fn.Pkg() == e.P.Pkg.Types {
+					cfi := e.P.FuncByObj[fn]
+					if cfi == nil || e.P.CF.Contracts[cfi.Key] == nil {
+						ok = false // calls another uncontracted in-package function
+					}
+				}
+			}
+			return ok
+		})
+	}
+	if n > 12 {
+		ok = false
+	}
+	e.autoInl[fi] = ok
+	return ok
 }
 
 func (fx *fctx) evalReceiver(st *State, recvExpr ast.Expr, sel *types.Selection, sig *types.Signature, n ast.Node) *Value {
@@ -784,6 +866,7 @@ func (fx *fctx) callContract(st *State, fi *FuncInfo, con *Contract, recv *Value
 	pre := st.clone()
 	// frame
 	fx.havocForCall(st, fi, con)
+	fx.restrictedFrame(st, pre, fi, con, bind, ce)
 	fx.protectFrame(st, pre)
 	// results
 	var results []*Value
@@ -862,6 +945,120 @@ func (fx *fctx) havocForCall(st *State, fi *FuncInfo, con *Contract) {
 		st.assume(ts.Ge(na, st.alloc))
 		st.alloc = na
 	}
+}
+
+// sortOfFieldKey: the SMT sort of the heap named "Struct.field" (scalar fields only).
+func (e *Engine) sortOfFieldKey(key string) (Sort, bool) {
+	k := strings.Index(key, ".")
+	if k < 0 {
+		return "", false
+	}
+	obj := e.P.Pkg.Types.Scope().Lookup(key[:k])
+	if obj == nil {
+		return "", false
+	}
+	sty := structOf(obj.Type())
+	if sty == nil {
+		return "", false
+	}
+	for i := 0; i < sty.NumFields(); i++ {
+		if sty.Field(i).Name() == key[k+1:] {
+			kd, s := e.classify(sty.Field(i).Type())
+			if kd == kScalar {
+				return s, true
+			}
+		}
+	}
+	return "", false
+}
+
+// allowedWriteAddr: under `assigns K@p...` of the function being verified, address a may be written iff it is the
+// entry value of one of the named parameters or an object allocated during this call.
+func (fx *fctx) allowedWriteAddr(key string, a *Term) *Term {
+	ts := fx.e.ts
+	var alts []*Term
+	for _, par := range fx.con.AssignsAt[key] {
+		if v := fx.entryBind[par]; v != nil && v.Tm != nil {
+			alts = append(alts, ts.Eq(a, v.Tm))
+		}
+	}
+	if fx.entry != nil && fx.entry.alloc != nil {
+		alts = append(alts, ts.Ge(a, fx.entry.alloc))
+	}
+	return ts.Or(alts...)
+}
+
+// restrictedFrame: (1) callee side of `assigns K@p`: heap K changes only at the named objects; (2) when the function
+// being verified itself promises `K@q`, a callee that may write K must be restricted to allowed addresses.
+func (fx *fctx) restrictedFrame(st *State, pre *State, fi *FuncInfo, con *Contract, bind map[string]*Value, ce *ast.CallExpr) {
+	e := fx.e
+	ts := e.ts
+	if con != nil {
+		for _, key := range sortedStrKeys(con.AssignsAt) {
+			s, ok := e.sortOfFieldKey(key)
+			if !ok {
+				e.unsup(ce, "assigns %s@...: not a scalar struct field", key)
+			}
+			h := e.heapGet(pre, key, ArrSort(s))
+			for _, par := range con.AssignsAt[key] {
+				v := bind[par]
+				if v == nil || v.Tm == nil {
+					e.unsup(ce, "assigns %s@%s: no such pointer parameter", key, par)
+				}
+				h = ts.Store(h, v.Tm, ts.Fresh("at."+key, s))
+			}
+			// objects allocated by the callee are unconstrained: they lie at or above the old frontier, where nothing was readable before
+			nh := ts.Fresh("H."+key, ArrSort(s))
+			bv := ts.BoundVar("a", SInt)
+			st.assume(ts.Forall([]*Term{bv}, ts.Implies(ts.Lt(bv, pre.alloc), ts.Eq(ts.Select(nh, bv), ts.Select(h, bv)))))
+			st.heap[key] = nh
+		}
+	}
+	if fx.con == nil || len(fx.con.AssignsAt) == 0 || fx.spec {
+		return
+	}
+	var ws []string
+	if con != nil && con.HasAssigns {
+		ws = con.Assigns
+	} else if e.effects != nil && fi.Obj != nil && e.effects.Trans[fi.Obj] != nil {
+		ws = keysList(e.effects.Trans[fi.Obj].Writes)
+		if e.effects.Trans[fi.Obj].Top {
+			ws = append(ws, "*")
+		}
+	} else {
+		ws = []string{"*"}
+	}
+	for _, key := range sortedStrKeys(fx.con.AssignsAt) {
+		hit := false
+		for _, w := range ws {
+			if matchKey(key, w) {
+				hit = true
+			}
+		}
+		if !hit {
+			continue
+		}
+		goal := ts.False()
+		if con != nil && len(con.AssignsAt[key]) > 0 {
+			var gs []*Term
+			for _, par := range con.AssignsAt[key] {
+				if v := bind[par]; v != nil && v.Tm != nil {
+					gs = append(gs, fx.allowedWriteAddr(key, v.Tm))
+				}
+			}
+			goal = ts.And(gs...)
+		}
+		fx.assert(pre, "assigns-at", fi.Key+"/"+key, goal, ce, nil, "callee writes "+key+" only where this function may ("+strings.Join(fx.con.AssignsAt[key], ", ")+" or fresh objects)")
+	}
+}
+
+func sortedStrKeys(m map[string][]string) []string {
+	var out []string
+	for k := range m {
+		out = append(out, k)
+	}
+	sort.Strings(out)
+	return out
 }
 
 // havocMatching forgets every heap whose key satisfies match, including heaps not materialised yet.
@@ -1010,6 +1207,42 @@ func (fx *fctx) intrinsic(st *State, name string, ce *ast.CallExpr) ([]*Value, b
 			return []*Value{{T: t, Tm: ts.Forall([]*Term{bv}, ts.Implies(rng, body))}}, true
 		}
 		return []*Value{{T: t, Tm: ts.Exists([]*Term{bv}, ts.And(rng, body))}}, true
+	case "forallStr":
+		lit, ok := ce.Args[0].(*ast.FuncLit)
+		if !ok {
+			e.unsup(ce, "quantifier body must be a function literal")
+		}
+		pv := fx.declVars(lit.Type.Params)
+		bv := ts.BoundVar(pv[0].Name(), SStr)
+		qs := st.clone()
+		qs.quiet = true
+		qs.vars[pv[0]] = &Value{T: pv[0].Type(), Tm: bv}
+		ret := lit.Body.List[0].(*ast.ReturnStmt)
+		savedSpec := fx.spec
+		fx.spec = true
+		body := fx.evalBool(qs, ret.Results[0])
+		fx.spec = savedSpec
+		return []*Value{{T: t, Tm: ts.Forall([]*Term{bv}, body)}}, true
+	case "mapHas":
+		mv := fx.eval(st, ce.Args[0])
+		kv := fx.eval(st, ce.Args[1])
+		mt := e.mapModelled(mv.T)
+		if mt == nil {
+			e.unsup(ce, "mapHas on a map type without `mapmodel`")
+		}
+		return []*Value{{T: t, Tm: e.mapHas(st, e.mapHeapsOf(mt), mv.Tm, kv.Tm)}}, true
+	case "rangeSeen":
+		kv := fx.eval(st, ce.Args[0])
+		var sv *types.Var
+		if n := len(fx.rangeSeen); n > 0 {
+			sv = fx.rangeSeen[n-1]
+		} else {
+			sv = fx.lastRangeSeen
+		}
+		if sv == nil || st.vars[sv] == nil {
+			e.unsup(ce, "rangeSeen outside a range loop over a modelled map")
+		}
+		return []*Value{{T: t, Tm: ts.Select(st.vars[sv].Tm, kv.Tm)}}, true
 	case "rngPos":
 		src := fx.eval(st, ce.Args[0])
 		return []*Value{{T: t, Tm: ts.Select(e.heapGet(st, "rng.pos", ArrSort(SInt)), src.Tm)}}, true
